@@ -110,6 +110,12 @@ def cases(tier, rng, dist):
         resp = [Fraction(rng.randint(-3, 3) * per) for _ in g]
         yield {"f": "sptm", "g": g, "c": c, "resp": [str(v) for v in resp]}
     yield from nan_arm_cases(rng)
+    # simulate_ts_dist with every kind of caller-supplied reference value (none, 0, 1/2, 1, 1/4: the seed selects it)
+    for k in range(10):
+        ng = rng.randint(1, 3)
+        yield {"f": "named", "fn": "ts", "g": [a for a in range(ng) for _ in range(4)], "c": [b for _ in range(ng) for b in (0, 0, 1, 1)],
+               "resp": [rng.choice([0, 1]) for _ in range(4 * ng)], "alt": "greater", "reps": rng.randint(1, 10), "plus1": rng.random() < 0.5,
+               "seed": 5 * rng.randint(0, 10**6) + (k % 5), "gseed": rng.randint(0, 10**6)}
     # named statistics with real seeds: all alternatives; reproducibility; options usable
     for _ in range(N // 2):
         ng = rng.randint(1, 3)
@@ -711,6 +717,11 @@ def oracle(c, o):
             _v = emit({"why": f"{name} ({k}) advanced numpy's global random state", "cls": f"{name}:global-rng"})
             if _v: return _v
     p, tst, d = rs["int1"][1:4]
+    if name == "ts":
+        ov = [None, 0.0, 0.5, 1.0, 0.25][seed_int(c["seed"]) % 5]
+        if ov is not None and tst != ov:
+            _v = emit({"why": f"simulate_ts_dist(obs_ts={ov}) reports the reference value {tst}: the value supplied by the caller is the one the p-value must be computed against", "cls": "simulate_ts_dist:observed-stat"})
+            if _v: return _v
     if len(d) != c["reps"]:
         _v = emit({"why": f"{name}: len(dist) != reps", "cls": f"{name}:dist-length"})
         if _v: return _v
